@@ -186,6 +186,39 @@ def t4(kinds=None):
         yield NL(1, [], gates, [f'g{d}', f'g{d // 2}'])
 
 
+def t5():
+    """Circuits with gates whose output is left unconnected (dangling), at several depths, next to live
+    logic including complex kinds that use scratch memory in the multi-valued logic simulator."""
+    chains = [
+        ['NAND2', 'INV1', 'AO21', 'XOR2'],
+        ['XOR2', 'MUX21', 'INV1', 'OA22'],
+        ['NOR2', 'BUF1', 'NAND2', 'AOI211'],
+        ['AND2', 'OR2', 'XOR2', 'INV1', 'NAND2'],
+    ]
+    for chain in chains:
+        gates = []
+        for k, kind in enumerate(chain):
+            a = ARITY[kind]
+            first = f'g{k - 1}' if k else 'i0'
+            gates.append((kind, tuple([first] + [f'i{(k + j) % 3}' for j in range(1, a)])))
+        n = len(chain)
+        srcs = ['i0', 'i1'] + [f'g{k}' for k in range(n - 1)]
+        for dk in ('AND2', 'INV1', 'AO21'):
+            for s1 in range(len(srcs)):
+                # one dangling gate
+                g1 = (dk, tuple([srcs[s1]] + ['i2'] * (ARITY[dk] - 1)))
+                yield NL(3, [], gates + [g1], [f'g{n - 1}'])
+                for s2 in range(s1, len(srcs)):
+                    g2 = ('OR2', (srcs[s2], 'i1'))
+                    yield NL(3, [], gates + [g1, g2], [f'g{n - 1}'])
+                    # dangling gates plus a second observed tap and a state element
+                    yield NL(3, [('dff', f'g{n - 2}')], gates + [g1, g2], [f'g{n - 1}', 'g0'])
+        # state elements capturing an early signal that is also read by logic (its memory must stay pinned)
+        for k in range(n - 1):
+            yield NL(3, [('dff', f'g{k}')], gates, [f'g{n - 1}'])
+            yield NL(3, [('latch', f'g{k}'), ('dff', 'i1')], gates + [('XOR2', ('q0', 'n1'))], [f'g{n - 1}', f'g{n}'])
+
+
 def take_slice(gen, nslices, which):
     for i, x in enumerate(gen):
         if i % nslices == which: yield x
